@@ -96,8 +96,8 @@ EXTRA = {
     "C14": ("the merge matcher's loop body incl. the improvement test and score bookkeeping, score_beats_threshold, the pair code of _calc_overlapping_labels", "merge_loop_ok, beats_metric_ok, code_ok, keep_ok, decode_ok, acc_bits_ok, masked_ok; the oracle's best-free-candidate clause is the theorem C14.final_at_least_best_free"),
     "C16": ("the lock/file skeleton of evaluate, _save_one_subject and make_statistic, the two module-level locks, and the value of every path argument (symbolic evaluation of the constructor)", "evaluate_fresh_ok, evaluate_claimed_ok, stat_ok, locks_ok (event sequences equal those of Agg.step), out_paths_ok, path_branches_ok"),
     "C17": ("the file part of the aggregator constructor in ten file states, the claimed-subject path of evaluate, and the value of every path argument (symbolic evaluation of the constructor: output file = given path or given path + .tsv, buffer = its stem-named sibling)", "ctor_ok, evaluate_claimed_ok (event sequences equal those of Agg.ctorStep / Agg.step), out_paths_ok, path_branches_ok"),
-    "C11": ("the pair code of _calc_overlapping_labels (which side's background is masked) and the fresh labels / dtype decisions of the relabelling — the two places where prediction and reference are treated differently", "masked_ok, code_ok, keep_ok, decode_ok, acc_bits_ok, fit_ok, fresh_base_ok, fresh_kth_ok, missed_ok, table_ok; end-to-end theorem pipeline_mirror (unmatched input, one-to-one matching on IoU/Dice, tie-free candidates: tp equal, counts exchanged, per-instance lists permuted) via uniqueness of the valid matching"),
-    "C09": ("the pair code of _calc_overlapping_labels (expression, 64-bit accumulation, masked side, filter, decoding) and the dtype / fresh-label decisions of the relabelling", "code_ok, max_ref_ok, keep_ok, decode_ok, acc_bits_ok, masked_ok, unique_ok, fit_ok, fresh_base_ok, fresh_kth_ok, table_ok; end-to-end theorems pipeline_rename (one-to-one threshold matcher) and pipeline_rename_merge (merge matcher, pairwise distinct candidate scores) (injective renaming of both label sets and change of integer width: counts and tp equal, per-instance lists permuted, tie-free candidates) via uniqueness of the valid matching"),
+    "C11": ("the pair code of _calc_overlapping_labels (which side's background is masked) and the fresh labels / dtype decisions of the relabelling — the two places where prediction and reference are treated differently", "masked_ok, code_ok, keep_ok, decode_ok, acc_bits_ok, fit_ok, fresh_base_ok, fresh_kth_ok, missed_ok, table_ok; end-to-end theorem pipeline_mirror (unmatched input, one-to-one matching on IoU/Dice, tie-free candidates: tp equal, counts exchanged, per-instance lists permuted) via uniqueness of the valid matching; pipeline_mirror_semantic (the same for semantic input, through C10.pipeline_semantic_unfold)"),
+    "C09": ("the pair code of _calc_overlapping_labels (expression, 64-bit accumulation, masked side, filter, decoding) and the dtype / fresh-label decisions of the relabelling", "code_ok, max_ref_ok, keep_ok, decode_ok, acc_bits_ok, masked_ok, unique_ok, fit_ok, fresh_base_ok, fresh_kth_ok, table_ok; end-to-end theorems pipeline_rename (one-to-one threshold matcher) and pipeline_rename_merge (merge matcher, pairwise distinct candidate scores) (injective renaming of both label sets and change of integer width: counts and tp equal, per-instance lists permuted, tie-free candidates) via uniqueness of the valid matching; pipeline_rename_semantic (semantic input, every configuration: equal results, from components_rename)"),
     "C04": ("_get_smallest_fitting_uint, the fresh labels of map_instance_labels and the table of _map_labels", "fit_ok, fit_holds, fresh_base_ok, fresh_kth_ok, missed_ok, table_ok (lifted to fullLabelMap / assignFresh / mapBits)"),
     "C05": ("the backend decision, the per-side labelling / emptiness guards, result dtype and counts of _approximate_instances and the library calls of _connected_components", "backend_default_ok, backend_config_ok, sides_ok, result_dtype_ok, cc_dispatch_ok"),
     "C15": ("that _approximate_instances does not write to the approximator object (and its backend decision); that extract_label copies before it writes and _evaluate_group is wired with the evaluator's own settings", "backend_config_ok, backend_default_ok, extract_label_ok, group_wiring_ok"),
